@@ -11,6 +11,7 @@ package gobinlog
 import (
 	"context"
 
+	"github.com/Breeze0806/gobinlog/internal/vspec"
 	"github.com/Breeze0806/gobinlog/replication"
 )
 
@@ -129,8 +130,13 @@ func vc_hook_loopstep_Streamer_parseEvents_1(ev replication.BinlogEvent, format 
 
 // ---- the loop invariant ----
 
+func vc_Streamer_parseEvents_requires(s *Streamer, ctx context.Context, events <-chan replication.BinlogEvent) bool {
+	return s != nil && s.tableMapper != nil && ctx != nil
+}
+
 func vc_Streamer_parseEvents_loop1_inv(pos Position, autocommit bool, tranEvents []*StreamEvent) bool {
-	return pos == vcAcc && // C04: the position to resume from is the accepted boundary
+	return vspec.Owned(tranEvents) && // the buffer is never memory that existed before the call
+		pos == vcAcc && // C04: the position to resume from is the accepted boundary
 		autocommit == !vcOpen && // C02: grouping state
 		len(tranEvents) == vcBuf && (vcOpen || vcBuf == 0) &&
 		!vcCalled && vcGood
